@@ -208,8 +208,8 @@ func main() {
 	var jobs []job
 	idx := 0
 	add := func(j job) { j.idx = idx; idx++; jobs = append(jobs, j) }
-	nRandom := rep.Pick(30000, 2400000)
-	maxN := rep.Pick(400, 2500)
+	nRandom := rep.Pick(30000, 2000000)
+	maxN := rep.Pick(400, 1200)
 	for i := 0; i < nRandom; i++ {
 		add(job{phase: "random"})
 	}
